@@ -115,11 +115,9 @@ def newton_trace(f, x0, jac, **kw):
         return v
     with LogCapture(logging.WARNING) as lc:
         xb = newton(fw, x0, jac, **kw)
-    best = None
-    for k in range(len(pts) - 1, -1, -1):
-        if np.array_equal(pts[k], xb, equal_nan=True):
-            best = k
-            break
+    matches = [k for k in range(len(pts)) if np.array_equal(pts[k], xb, equal_nan=True)]
+    best = matches[-1] if matches else None
+    newton_trace.matches = matches
     warned = any('did not get close' in rec.getMessage() for rec in lc.records)
     return norms, best, warned, xb
 
@@ -175,21 +173,16 @@ def corr_newton(rng, count):
         except np.linalg.LinAlgError:
             continue
         lines.append('hand newton %d %d %d %d %s' % (niter, nls, bits(tol), bits(tol * 1e4), bl(norms)))
-        plan.append(dict(kind=kind, niter=niter, nls=nls, tol=tol, norms=norms, best=best, warned=warned))
+        plan.append(dict(kind=kind, niter=niter, nls=nls, tol=tol, norms=norms, best=best, warned=warned, matches=list(newton_trace.matches)))
     for p, blk in zip(plan, run_hand(lines)):
         r['evaluations'] += 1
         got = (int(blk['best'][0]), bool(int(blk['warned'][0])), int(blk['evals'][0]))
         exp = (p['best'], p['warned'], len(p['norms']) - 1)
         r['distinct'].add((p['kind'], got))
         # x_best is identified by value; several evaluations at the same point are indistinguishable
-        same_point = p['best'] is not None and got[0] is not None
-        if got[1] != exp[1] or got[2] != exp[2] or (p['best'] is not None and got[0] != exp[0] and not (p['kind'] in (3, 5))):
+        # x_best is identified by value: the model's evaluation index must be one of the evaluations made at that point
+        if got[1] != exp[1] or got[2] != exp[2] or (p['matches'] and got[0] not in p['matches']):
             r['disagreements'].append(dict(kernel='newton', case=p, model=got, impl=exp))
-        elif p['kind'] in (3, 5) and got[0] != exp[0]:
-            # scripted streams evaluate f at repeated points; compare norms instead of indices
-            a, b = p['norms'][got[0]], p['norms'][exp[0]]
-            if not (a == b or (a != a and b != b)):
-                r['disagreements'].append(dict(kernel='newton', case=p, model=got, impl=exp))
     r['samples'] = [dict(kernel='newton', kind=p['kind'], niter=p['niter'], nls=p['nls'], norms=p['norms'][:6], best=p['best'], warned=p['warned']) for p in plan[:4]]
     return r
 
